@@ -7,6 +7,7 @@ Correspondence: hook `infohash_of` at volume vs extracted `Infohash.ih_from_inpu
 independent span finder; the real binary's `torrent show`, `show --json`, `link` on generated files
 and `create --link --show` followed by show/link on what create wrote; extracted typed serialiser
 `ser_info` vs the span of created files."""
+import zlib
 import hashlib, json, os, re, shutil, tempfile
 import lib
 
@@ -419,6 +420,18 @@ def show_infohashes(ctx, path, cwd):
     res["show-json"] = parse_json(rc, out)
     rc, out, err = ctx.imdl(["torrent", "link", "--input", path], cwd=cwd, env=env)
     res["link"] = parse_link(rc, out)
+    # the human-readable table, at terminal widths from very narrow to wide: the infohash row carries all 40 digits whatever
+    # room there is (added after seeded change C04-8: rows shortened to the terminal width)
+    width = (None, "20", "40", "48", "54", "55", "80", "200")[zlib.crc32(os.fsencode(cwd)) % 8]
+    env2 = dict(env)
+    if width is not None:
+        env2["IMDL_TERM_WIDTH"] = width
+    rc, out, err = ctx.imdl(["--terminal", "torrent", "show", "--input", path], cwd=cwd, env=env2)
+    if rc != 0:
+        res["show-terminal"] = ("rej", rc)
+    else:
+        m = re.search(rb"^\s*Info Hash\s+(\S+)\s*$", out, re.M)
+        res["show-terminal"] = ("ok", m.group(1).decode("utf-8", "replace")) if m else ("bad", out[:300].decode("utf-8", "replace"))
     return res
 
 
@@ -607,6 +620,7 @@ def run(ctx):
                           % (n, rep[k][:12], rep[len(dl) + k][:12]), {"name": n})
 
     e2e(ctx, cases, impl, accepted, ncorpus, nvalid)
+    large_files(ctx)
     created(ctx)
     return finish(ctx)
 
@@ -640,6 +654,41 @@ def shrink_hook(ctx, st, name):
     v = ctx.violations[-1]
     v["case"] = dict(v["case"], shrunk_file=d, shrunk_oracle_sha1=oracle(d)[1],
                      shrunk_impl=ctx.harness(["infohash " + lib.hexs(d)])[0], reproduce=repro(d))
+
+
+def large_files(ctx):
+    """Torrent files of several megabytes (hundreds of thousands of pieces) with a key imdl does not model inside `info`, an
+    upper-case md5sum, and trailing bytes: the size of the file must not change which bytes are hashed. Real binary and
+    hashlib only - the extracted model would need minutes for 8 MB of byte lists. (Added after seeded change C04-9: inputs
+    above 8 MiB hashed through the re-serialised typed struct.)"""
+    sizes = [419000, 420000] + ([900000, 3400000] if ctx.thorough else [])      # pieces: just below / above 8 MiB of file, 17 MB, 65 MB
+    tmp = tempfile.mkdtemp(prefix="c04L-")
+    try:
+        for npieces in sizes:
+            pieces = bytes((i * 7 + 1) % 251 for i in range(20)) * npieces
+            info = {b"name": b"large", b"piece length": 16384, b"pieces": pieces, b"length": 16384 * npieces,
+                    b"md5sum": b"0123456789ABCDEF0123456789abcdef", b"x-not-modelled": [1, {b"k": b"v"}]}
+            data = enc({b"announce": b"http://t.example/a", b"info": info}) + b"trailing"
+            d = tempfile.mkdtemp(dir=tmp)
+            with open(os.path.join(d, "t.torrent"), "wb") as f:
+                f.write(data)
+            res = show_infohashes(ctx, "t.torrent", d)
+            shutil.rmtree(d, ignore_errors=True)
+            want = hashlib.sha1(lib.info_span(data)).hexdigest()
+            ctx.cov["evaluations"] += 1
+            ctx.count("e2e:large-file")
+            ctx.distinct(("large", npieces))
+            wrong = {k: v for k, v in res.items() if v != ("ok", want)}
+            if wrong:
+                ctx.violation("oracle-failure",
+                              "a %d-byte torrent (%d pieces, an unmodelled key in info): %s; SHA-1 of the stored info span is %s"
+                              % (len(data), npieces, wrong, want),
+                              {"kind": "large-file", "pieces": npieces, "file_bytes": len(data), "binary": res, "expected": want,
+                               "reproduce": "python3: info = {name: large, piece length: 16384, pieces: (bytes((i*7+1)%%251 for i in range(20)))*%d, "
+                                            "length: 16384*%d, md5sum: 0123456789ABCDEF0123456789abcdef, x-not-modelled: [1, {k: v}]}; "
+                                            "file = bencode({announce: http://t.example/a, info: info}) + b'trailing'; imdl torrent show / link" % (npieces, npieces)})
+    finally:
+        shutil.rmtree(tmp, ignore_errors=True)
 
 
 def e2e(ctx, cases, impl, accepted, ncorpus, nvalid):
@@ -696,7 +745,7 @@ def e2e(ctx, cases, impl, accepted, ncorpus, nvalid):
                                       % (name, o[1]), case)
                 if impl[i].startswith("OK ") and set(oks.values()) != {impl[i][3:]}:
                     ctx.violation("model-impl-disagreement", "hook and binary differ on %s" % name, case)
-                if len(oks) < 3:
+                if len(oks) < 4:
                     ctx.count("e2e:partial-acceptance")
             if name.startswith("deep"):
                 # bendy's depth accounting, observed through the typed path (limit 2048) of the real binary
@@ -798,7 +847,7 @@ def created(ctx):
             ctx.violation("infrastructure", "create was rejected for a generated content tree (rc %d): %s" % (res["create-rc"], res.get("stderr")), case)
             continue
         o = oracle(data)
-        names = ["create-show", "create-link", "show", "show-json", "link"]
+        names = ["create-show", "create-link", "show", "show-json", "link", "show-terminal"]
         vals = {k: res[k] for k in names}
         ctx.count("create:" + ("multi" if b"5:files" in data else "single"))
         if o[0] != "accept":
